@@ -7,6 +7,13 @@ Assume/guarantee decomposition, each part a check of the real code:
    which the session has consumed the change log up to a *symbolic* position
    p <= highest; obligation: p < highest  =>  the call completes without any
    further set() (it must not wait for the *next* change to report this one).
+1b. a change that lands while the idler is not parked is not lost: the idler
+   consumes the log at an arbitrary point of a history of mutators (as the
+   return of its previous wait does), the rest of the history lands, then it
+   re-arms update_selected(wait_on=done): if its view (uid -> flags) differs
+   from the mailbox it must complete without any further set(), and the view
+   must then equal the mailbox.  (Obligation 1 alone assumes that every
+   change advances the log position; this one does not.)
 2. every mutator signals: append / copy / move / update / delete /
    claim_recent each set a listener registered with or_event beforehand.
 3. the diff after wake-up is right: C01 / C02.
@@ -35,7 +42,7 @@ FUNCTIONS = [
     'pymap.imap.state:ConnectionState.receive_updates', 'pymap.backend.session:BaseSession.check_mailbox',
     'pymap.parsing.command.select:IdleCommand.parse_done',
 ]
-ASSUMPTIONS = ['change logs produced by <= 3 mutations; the idler position p is any integer 0..highest (or None: never synced)',
+ASSUMPTIONS = ['change logs produced by <= 3 (quick) / 4 (thorough) mutations, the idler consuming the log at any point before the last one; the idler position p is any integer 0..highest (or None: never synced)',
                'asyncio scheduler fairness, wait_for and shield are trusted',
                'DONE line of <= 6 symbolic bytes (no LF inside, not ending in a literal announcement "+}")']
 STUBS = ['scripted transport for part 4']
@@ -124,6 +131,76 @@ def parked_scenario(g, sim, history, p, check):
     return None
 
 
+PUSH_OPS = ['append', 'flag_add', 'flag_del', 'flag_add_last', 'flag_del_last', 'delete', 'copy_in', 'move_out',
+            'claim_recent']
+
+
+def _mutate_push(g, sim, ms, mbx, other, op, sel_other):
+    if op.startswith('flag_'):
+        if not mbx._messages:
+            return _mutate(g, sim, ms, mbx, other, 'append', sel_other)
+        uids = sorted(mbx._messages)
+        uid = uids[-1] if op.endswith('_last') else uids[0]
+        mode = g['FlagOp'].ADD if '_add' in op else g['FlagOp'].DELETE
+        sim.run_coro(mbx.update(uid, mbx._messages[uid], frozenset({g['Seen']}), mode))
+    else:
+        _mutate(g, sim, ms, mbx, other, op, sel_other)
+
+
+def push_scenario(g, sim, history, k, base=None, h0=None):
+    """the idler consumes the log after the first k mutations (as the return of its previous wait does), the
+    rest of the history lands while it is not parked (writing that notification), then it re-arms its wait:
+    whatever its view is missing must be reported without any further set().  returns error|None"""
+    import asyncio
+    ms = g['MailboxSet']()
+    mbx = ms._inbox
+    sim.run_coro(ms.add_mailbox('O'))
+    other = sim.run_coro(ms.get_mailbox('O'))
+
+    def mk():
+        return g['SelectedMailbox'](mbx.mailbox_id, False, g['PermanentFlags'](mbx.permanent_flags),
+                                    g['SessionFlags'](mbx.session_flags), selected_set=mbx.selected_set, lookup='INBOX')
+    if base is not None:
+        # arbitrary starting points of the UID counter and of the change log
+        mbx._max_uid = base
+        mbx._mod_sequences._highest = h0
+    sel_other = mk()
+    sel = mk()
+    sim.run_coro(mbx.update_selected(sel))
+
+    def view():
+        m = sel.messages
+        return {u: frozenset(m._flags_key_map[u][1]) for u in m._uids}
+
+    def state():
+        return {u: frozenset(msg.permanent_flags) for u, msg in mbx._messages.items()}
+    for i, op in enumerate(history):
+        if i == k:
+            sim.run_coro(mbx.update_selected(sel))
+            if view() != state():
+                return 'a plain synchronisation left the view stale after %s' % (history[:k],)
+        _mutate_push(g, sim, ms, mbx, other, op, sel_other)
+    stale = view() != state()
+    res = {}
+
+    async def main():
+        done = g['subsystem'].get().new_event()
+        task = asyncio.ensure_future(mbx.update_selected(sel, wait_on=done))
+        for _ in range(6):
+            await asyncio.sleep(0)
+        res['parked'] = not task.done()
+        if not res['parked']:
+            res['view'] = view()
+        done.set()
+        await task
+    asyncio.run(main())
+    if stale and res['parked']:
+        return 'the idler parked although its view misses a change (would wait for the next one)'
+    if not res['parked'] and res['view'] != state():
+        return 'the idler woke up but its view still misses a change'
+    return None
+
+
 def signal_scenario(g, sim, op):
     ms = g['MailboxSet']()
     mbx = ms._inbox
@@ -175,6 +252,19 @@ def parked_scenario_bounded(g, sim, history, p, check, eng):
     if p is not None:
         eng.add(p.t <= mbx._mod_sequences.highest)
     return parked_scenario(g, sim, history, p, check)
+
+
+def _h_push(depth):
+    def fn(eng):
+        from pysymex import Outcome, SymUid
+        history = [PUSH_OPS[eng.choose('m%d' % t, len(PUSH_OPS))] for t in range(depth)]
+        k = eng.choose('sync_at', depth)
+        base = eng.fresh_int('base', 0, 2 ** 32 - 10, cls=SymUid)
+        h0 = eng.fresh_int('h0', 0, cls=SymUid)
+        err = push_scenario(_g, _g['_sim'], history, k, base, h0)
+        return Outcome(err is None, witness=lambda m: {'history': history, 'k': k, 'base': base.eval(m), 'h0': h0.eval(m)},
+                       info=err)
+    return fn
 
 
 def _h_signal():
@@ -234,6 +324,10 @@ def harnesses(tier):
     for d in ([0, 1, 2] if q else [0, 1, 2, 3]):
         hs.append(Harness('never_parks_behind[history=%d]' % d, _h_parked(d), {'history': d, 'p': 'symbolic 0..highest'},
                           replay='parked', task_budget=30))
+    for d in ([1, 2, 3] if q else [1, 2, 3, 4]):
+        hs.append(Harness('change_while_not_parked[history=%d]' % d, _h_push(d),
+                          {'history': d, 'sync_point': 'any position before the last mutation'}, replay='push',
+                          task_budget=60))
     hs.append(Harness('mutators_signal', _h_signal(), {'mutators': MUTATORS}, replay='signal'))
     for n in ([0, 4, 5] if q else [0, 1, 2, 3, 4, 5, 6]):
         hs.append(Harness('idle_done_line[len=%d]' % n, _h_idle_done(n), {'line_len': n}, replay='idledone', task_budget=20))
@@ -257,6 +351,8 @@ def replay(harness, w):
             bad.append(msg or 'obligation failed')
     if harness == 'parked':
         err = parked_scenario(g, _sim, w['history'], w['p'], check)
+    elif harness == 'push':
+        err = push_scenario(g, _sim, w['history'], w['k'], w.get('base'), w.get('h0'))
     elif harness == 'signal':
         err = signal_scenario(g, _sim, w['op'])
     else:
